@@ -445,6 +445,12 @@ func (s *Server) cmdSearchArgs(
 		}
 	}
 
+	if lfs.obj == nil && !lfs.roam.on {
+		// the area type was accepted but nothing above builds it (GEO)
+		err = errInvalidArgument(typ)
+		return
+	}
+
 	var clipRect geojson.Object
 	var tok, ltok string
 	for len(vs) > 0 {
